@@ -1,6 +1,7 @@
 import Cuke.Lemmas.NormalizeInsert
 import Cuke.Lemmas.NormalizeOrder
 import Cuke.Lemmas.NormalizeSeq
+import Cuke.Lemmas.NormalizeContract
 import Cuke.Model.Monitors
 /-!
 # C11 — Normalize reorders any contract-abiding stream losslessly into sequential order
@@ -698,5 +699,148 @@ example : (normRun Norm.init exStream).map (fun r => r.2.flatten) =
     `kb`'s were received in between -/
 example : (normRun Norm.init exStream).map (fun r => proj (ka, none) r.2.flatten) =
     some (proj (ka, none) exStream) ∧ (proj (ka, none) exStream).length = 2 := by decide +kernel
+
+/-! ## The contract, stated without reference to the normalizer
+
+`Cuke.Contract` (Cuke/Model/Contract.lean) is a status ledger over the STREAM alone. It implies `SafeRun`
+and `StartsRun` — so every theorem above holds for every stream the ledger accepts — and that no
+`panic!` / `unreachable!` branch of `Normalize` is reached (T0 proper). Invariant and lemmas:
+Cuke/Lemmas/NormalizeContract.lean. -/
+
+/-- the two regimes of the simulation: before run-Finished the queue mirrors the ledger; after it the queue
+    is empty and everything passes through -/
+def Mirrors (c : CSt) (n : Norm) : Prop :=
+  (c.fin = false ∧ n.fin = .no ∧ Inv c n.feats) ∨ (c.fin = true ∧ n.fin = .emitted ∧ n.feats = [])
+
+theorem contract_step (c c' : CSt) (n : Norm) (e : Ev) (hwf : CWf c) (hok : NormOk n) (hd : NormD n)
+    (hm : Mirrors c n) (hstep : c.step e = some c') :
+    safeStep n e = true ∧ startsRightN n e = true ∧
+    ∃ n' out, n.handle e = some (n', out) ∧ CWf c' ∧ NormOk n' ∧ NormD n' ∧ Mirrors c' n' := by
+  have hwf' := cwf_step c c' e hwf hstep
+  rcases hm with ⟨hcf, hno, hinv⟩ | ⟨hcf, hem, hnil⟩
+  · obtain ⟨hsafe, hstart, hclosed⟩ := contract_safe c c' n e hwf hinv hd hcf hstep
+    have hss : safeStep n e = true := by
+      simp only [safeStep, hno, hsafe, Bool.true_and, Bool.or_eq_true, Bool.not_eq_true']
+      right
+      by_cases hf : e = .finished
+      · right; exact hclosed hf
+      · left; simpa using hf
+    refine ⟨hss, hstart, ?_⟩
+    obtain ⟨n1, hi⟩ := insert_some n e hsafe
+    obtain ⟨_, hok1, hfin1⟩ := insert_perm n n1 e hok hsafe hi
+    have hd1 : NormD n1 := (insert_proj n n1 e hd hsafe hi (⟨0, none, 0⟩, none)).2
+    have hinv1 := inv_insert c c' n n1 e hwf hinv hd hcf hstep hi
+    obtain ⟨_, hok2⟩ := emitFeats_eq n1.feats hok1
+    have hd2 := emitFeats_D n1.feats hd1
+    have hinv2 := inv_emit c' n1.feats hwf' hok1 hinv1
+    have hem' : (n.fin == Fin.emitted) = false := by rw [hno]; rfl
+    by_cases hf : e = .finished
+    · subst hf
+      simp only [beq_self_eq_true, if_true] at hfin1
+      have hn1 : n1.feats = n.feats := by
+        simp only [Norm.insert, Option.some.injEq] at hi; subst hi; rfl
+      have hnil := emitFeats_all_closed n1.feats hok1 (by rw [hn1]; exact hclosed rfl)
+      refine ⟨{ feats := (emitFeats n1.feats).2, fin := .emitted },
+        (if Ev.finished.isRunLevel then [Ev.finished] else []) ++ (emitFeats n1.feats).1 ++ [.finished], ?_, hwf', hok2, hd2, ?_⟩
+      · simp only [Norm.handle, hem', Bool.false_eq_true, if_false, hi, hfin1, beq_self_eq_true, if_true]
+      · exact Or.inr ⟨(cstep_fin c c' _ hcf hstep).mpr rfl, rfl, hnil⟩
+    · have hf' : (e == Ev.finished) = false := by simpa using hf
+      simp only [hf', Bool.false_eq_true, if_false] at hfin1
+      have hn1p : (n1.fin == Fin.pending) = false := by rw [hfin1, hno]; rfl
+      refine ⟨{ n1 with feats := (emitFeats n1.feats).2 },
+        (if e.isRunLevel then [e] else []) ++ (emitFeats n1.feats).1, ?_, hwf', hok2, hd2, ?_⟩
+      · simp only [Norm.handle, hem', Bool.false_eq_true, if_false, hi, hn1p]
+      · refine Or.inl ⟨?_, by simp [hfin1, hno], hinv2⟩
+        cases hc : c'.fin with
+        | false => rfl
+        | true => exact absurd ((cstep_fin c c' _ hcf hstep).mp hc) hf
+  · have hc' : c' = c := by
+      simp only [CSt.step, hcf, if_true, Option.some.injEq] at hstep
+      exact hstep.symm
+    subst hc'
+    have hem' : (n.fin == Fin.emitted) = true := by rw [hem]; rfl
+    refine ⟨by simp [safeStep, hem'], ?_, n, [e], by simp [Norm.handle, hem'], hwf, hok, hd, Or.inr ⟨hcf, hem, hnil⟩⟩
+    cases e with
+    | scen k ret ev => simp [startsRightN, featIn, hnil]
+    | _ => simp [startsRightN]
+
+theorem contract_safeRun_from (c : CSt) (n : Norm) (evs : List Ev) (hwf : CWf c) (hok : NormOk n) (hd : NormD n)
+    (hm : Mirrors c n) (h : contractFrom c evs = true) :
+    SafeRun n evs = true ∧ StartsRun n evs = true := by
+  induction evs generalizing c n with
+  | nil => simp [SafeRun, StartsRun]
+  | cons e es ih =>
+    simp only [contractFrom] at h
+    cases hstep : c.step e with
+    | none => simp [hstep] at h
+    | some c' =>
+      simp only [hstep] at h
+      obtain ⟨hss, hstart, n', out, hh, hwf', hok', hd', hm'⟩ := contract_step c c' n e hwf hok hd hm hstep
+      obtain ⟨ih1, ih2⟩ := ih c' n' hwf' hok' hd' hm' h
+      simp [SafeRun, StartsRun, hss, hstart, hh, ih1, ih2]
+
+/-- **Contract ⇒ hypotheses of the C11 theorems.** Every stream accepted by the status ledger satisfies
+    `SafeRun` and `StartsRun`. -/
+theorem contract_implies_safeRun (evs : List Ev) (h : Contract evs = true) :
+    SafeRun Norm.init evs = true ∧ StartsRun Norm.init evs = true :=
+  contract_safeRun_from {} Norm.init evs cwf_init (by simp [NormOk, Norm.init]) (by simp [NormD, featsD, Norm.init])
+    (Or.inl ⟨rfl, rfl, inv_init⟩) h
+
+theorem safeRun_runs (n : Norm) (evs : List Ev) (h : SafeRun n evs = true) : ∃ n' outs, normRun n evs = some (n', outs) := by
+  induction evs generalizing n with
+  | nil => exact ⟨n, [], rfl⟩
+  | cons e es ih =>
+    simp only [SafeRun, Bool.and_eq_true] at h
+    cases hh : n.handle e with
+    | none => simp [hh] at h
+    | some r =>
+      obtain ⟨n1, out⟩ := r
+      simp only [hh] at h
+      obtain ⟨n2, outs, hr⟩ := ih n1 h.2
+      exact ⟨n2, out :: outs, by simp [normRun, hh, hr]⟩
+
+/-- **T0.** On a contract-abiding stream — of any length, any interleaving of concurrently running scenarios,
+    anything at all after run-Finished — `Normalize` never reaches one of its `panic!("no Feature")`,
+    `panic!("no Rule")` / `unreachable!()` branches. -/
+theorem norm_T0_no_panic (evs : List Ev) (h : Contract evs = true) :
+    ∃ n outs, normRun Norm.init evs = some (n, outs) :=
+  safeRun_runs Norm.init evs (contract_implies_safeRun evs h).1
+
+/-- **C11, whole run, from the contract alone.** For every contract-abiding stream `pre ++ [Finished]`:
+    no panic; the output is `pre' ++ [Finished]` with `pre'` a permutation of `pre` (nothing lost, nothing
+    duplicated, run-Finished last); the output is sequential (accepted by the strict automaton); and every
+    attempt's events come out in their original relative order. -/
+theorem norm_contract_whole_run (pre : List Ev) (hnf : ∀ e ∈ pre, e ≠ Ev.finished)
+    (h : Contract (pre ++ [Ev.finished]) = true) :
+    ∃ n outs pre', normRun Norm.init (pre ++ [Ev.finished]) = some (n, outs) ∧
+      outs.flatten = pre' ++ [Ev.finished] ∧ pre' ~ pre ∧
+      Cuke.Mon.seqOk outs.flatten = true ∧
+      ∀ κ : AKey, proj κ outs.flatten = proj κ (pre ++ [Ev.finished]) := by
+  obtain ⟨hs, hc⟩ := contract_implies_safeRun _ h
+  obtain ⟨n, outs, pre', hrun, hflat, hperm⟩ := norm_T1_finished_last pre hnf hs
+  refine ⟨n, outs, pre', hrun, hflat, hperm, ?_, ?_⟩
+  · obtain ⟨n2, outs2, hrun2, hseq⟩ := norm_T2_sequential pre hnf hs hc
+    rw [hrun] at hrun2
+    simp only [Option.some.injEq, Prod.mk.injEq] at hrun2
+    rw [hrun2.2]; exact hseq
+  · intro κ
+    obtain ⟨n3, outs3, hrun3, hp⟩ := norm_T3_order pre hs κ
+    rw [hrun] at hrun3
+    simp only [Option.some.injEq, Prod.mk.injEq] at hrun3
+    rw [hrun3.2]; exact hp
+
+/-- non-vacuity: the interleaved example stream is contract-abiding, and so is one with a retried attempt
+    and events after run-Finished -/
+example : Contract exStream = true := by decide +kernel
+example : Contract [.started, .featStarted 1, .scen ka (some ⟨0, 1⟩) .started, .featStarted 2, .ruleStarted 2 5,
+    .scen ka (some ⟨0, 1⟩) (.step 0 (.failed .notFound)), .scen kb none .started, .scen ka (some ⟨0, 1⟩) .finished,
+    .scen ka (some ⟨1, 0⟩) .started, .scen kb none .finished, .scen ka (some ⟨1, 0⟩) .finished, .ruleFinished 2 5,
+    .featFinished 1, .featFinished 2, .finished, .scen ka none .started] = true := by decide +kernel
+/-- … and the ledger rejects what the contract forbids -/
+example : Contract [.featStarted 1, .scen ka none .started, .featFinished 1] = false ∧   -- closing over an open attempt
+    Contract [.featStarted 1, .featFinished 1, .featStarted 1] = false ∧                    -- re-opening
+    Contract [.featStarted 1, .scen ka none (.step 0 .started)] = false ∧                   -- attempt without Started
+    Contract [.scen ka none .started] = false ∧                                             -- outside any feature
+    Contract [.featStarted 1, .finished] = false := by decide +kernel                       -- run-Finished over an open feature
 
 end Cuke.C11
